@@ -22,7 +22,9 @@
 (*             ("E": the user's file with notes, a variable and a field     *)
 (*              transform but no [rule] section - it is still their file)   *)
 (*  rulesbak : "absent" | "U" | "E" | "starter"     merchants.rules.bak    *)
-(*  views    : "absent" | "V" | "starter"           views.rules            *)
+(*  views    : "absent" | "V" | "X" | "starter"     views.rules            *)
+(*             ("X": the user's views file in the middle of being written:  *)
+(*              a section without its filter - tally cannot load it)        *)
 (*  data     : "absent" | "D"                       data/card.csv          *)
 (*  gitignore: "absent" | "G" | "starter"                                  *)
 (*  report   : "absent" | "old" | "new"   output/spending_summary.html     *)
@@ -87,7 +89,7 @@ Apply(c, f) ==
 \* --------------------------------------------------------------- behaviour --
 FS0s == [settings : {[base |-> "absent", app |-> <<>>], [base |-> "user", app |-> <<>>], [base |-> "userref", app |-> <<>>]},
          csv : {"absent", "R"}, csvbak : {"absent", "B"}, csvbak1 : {"absent"},
-         rules : {"absent", "U", "E"}, rulesbak : {"absent"}, views : {"absent", "V"},
+         rules : {"absent", "U", "E"}, rulesbak : {"absent"}, views : {"absent", "V", "X"},
          data : {"absent", "D"}, gitignore : {"absent", "G"}, report : {"absent", "old"}]
 
 Init == fs \in FS0s /\ fs0 = fs /\ hist = <<>>
@@ -126,9 +128,10 @@ OnDisk(f, x) ==
     [] x = "E" -> f.rules = "E" \/ f.rulesbak = "E"
     [] x = "B" -> f.csvbak = "B"
     [] x = "V" -> f.views = "V"
+    [] x = "X" -> f.views = "X"
     [] x = "D" -> f.data = "D"
     [] x = "G" -> f.gitignore = "G"
-BackupKeptAndNothingLost == \A x \in {"R", "U", "E", "B", "V", "D", "G"} : OnDisk(fs0, x) => OnDisk(fs, x)
+BackupKeptAndNothingLost == \A x \in {"R", "U", "E", "B", "V", "X", "D", "G"} : OnDisk(fs0, x) => OnDisk(fs, x)
 SettingsOnlyGrow == fs0.settings.base # "absent" => IsExtension(fs0.settings, fs.settings)
 \* negative control: must be refuted
 Neg_NeverMigrates == fs.rules # "M"
